@@ -222,6 +222,23 @@ func anomaly(ans *vrun.Answer) (owner, detail string) {
 
 const fallbackText = "no steps running, no more executable steps"
 
+// fallbackRepeats re-runs a case whose run ended with the fallback verdict although the reference says
+// an output is producible (up to three times). The time-based detector can misfire on a loaded
+// machine (C09 / finding K6r), so one such answer proves nothing; a verdict that comes again tells a
+// run that cannot deliver its producible output from a rare misfire. It returns the repeated error.
+func fallbackRepeats(c *vcase.Case) string {
+	for i := 0; i < 3; i++ {
+		again := RunCase(c.Request("run"))
+		if owner, _ := anomaly(again); owner != "" {
+			return ""
+		}
+		if again.Returned != nil && strings.Contains(again.Returned.Err, fallbackText) {
+			return again.Returned.Err
+		}
+	}
+	return ""
+}
+
 // execStarts returns the keys with an exec-start event in the run phase, in order.
 func execStarts(ans *vrun.Answer) []string {
 	var out []string
